@@ -213,6 +213,9 @@ func leanTypeM(t types.Type) (string, error) {
 	if lt, ok := k11bType(t); ok { // wp k11b (ext_k11b.go): []bool, opaque object tokens
 		return lt, nil
 	}
+	if lt, ok := k01dec2Type(t); ok { // wp k01dec2 (ext_k01dec2.go): func(int, int) bool as an abstract predicate
+		return lt, nil
+	}
 	switch u := t.Underlying().(type) {
 	case *types.Basic:
 		if u.Info()&types.IsString != 0 {
@@ -494,6 +497,9 @@ func (fc *fnCtx) mexpr(ex ast.Expr) (string, bool, error) {
 		return s, true, err
 	}
 	if s, handled, err := fc.k11bMexpr(ex); handled { // wp k11b (ext_k11b.go)
+		return s, true, err
+	}
+	if s, handled, err := fc.k01dec2Mexpr(ex); handled { // wp k01dec2 (ext_k01dec2.go): call of a function-valued field
 		return s, true, err
 	}
 	switch x := ex.(type) {
@@ -3121,6 +3127,7 @@ func genFuncM(p *packages.Package, e entry) (string, error) {
 			outTypes = append(outTypes, fc.m.ltype[n])
 		}
 	}
+	outTypes = fc.k01dec2MatrixOuts(assigned0, outTypes) // wp k01dec2 (ext_k01dec2.go): a *BitMatrix PARAMETER mutated by Flip / SetRegion is returned
 	if len(fc.m.outVars) > 0 {
 		fc.m.tie = true
 	}
